@@ -94,11 +94,13 @@ def project(prog, cfg):
         tool.append("default-flags = %r" % list(cfg["default"]))
     if cfg.get("tui") is not None:
         tool.append("default-flags-tui = %r" % list(cfg["tui"]))
+    if cfg.get("skip_updates"):
+        tool.append("skip-snapshot-updates-for-now = true")
     if tool:
         pp.append("[tool.inline-snapshot]\n" + "\n".join(tool) + "\n")
     if cfg.get("shortcuts") is not None:
         pp.append("[tool.inline-snapshot.shortcuts]\n" + "\n".join("%s = %r" % (k, v) for k, v in cfg["shortcuts"].items()) + "\n")
-    files["pyproject.toml"] = "\n".join(pp).replace("'", '"')
+    files["pyproject.toml"] = "\n".join(pp).replace("'", '"').replace("True", "true")
     files[".inline-snapshot/external/%s.txt" % _h(UNUSED)] = UNUSED
     files[".inline-snapshot/external/%s.txt" % _h(KEEP)] = KEEP
     files[".inline-snapshot/external/.gitignore"] = "# ignore all snapshots which are not referred in the source\n*-new.*\n"
@@ -310,6 +312,13 @@ def configs(tier):
     for how in ("class", "module", "classmodule"):            # inherited xfail marks
         for s in (list(CATS), ["review"], ["report", "fix"]):
             cf.append({"xfail": "", "xfail_at": how, "cli": s, "answers": "yyyy" if s == ["review"] else None})
+    # skip-snapshot-updates-for-now: updates are neither reported nor offered in review unless update is a flag
+    for ans in ("yyyy", "nyyy", "yyyn", "nnnn"):
+        cf.append({"skip_updates": True, "cli": ["review"], "answers": ans})
+    cf += [{"skip_updates": True, "cli": ["review", "update"], "answers": a} for a in ("nnn", "yyy")]
+    cf += [{"skip_updates": True, "cli": s} for s in (["report"], ["update"], list(CATS), ["create"], ["report", "update"], ["create", "fix", "trim"])]
+    cf += [{"skip_updates": True, "env": ["update"]}, {"skip_updates": True, "default": ["update", "report"]}, {"skip_updates": True},
+           {"skip_updates": True, "tty": True, "answers": "yyy"}, {"skip_updates": True, "shortcut": "review", "answers": "yyyy"}]
     cf += [{"cli": ["bogus"]}, {"cli": ["disable", "fix"]}, {"env": ["disable", "fix"]}, {"default": ["creat"]}, {"env": ["Fix"]},
            {"cli": ["review", "disable"]}, {"cli": ["fix", ""]}, {"cli": ["", "trim"]}]
     out = []
